@@ -73,6 +73,7 @@ class Engine(ExprMixin, StmtMixin, CallMixin, SpecMixin):
         self.unfolded: set = set()
         self._lemmas_done: set = set()
         self.ghost: dict = {}
+        self.opaque_epoch = 0  # bumped by every contracted call and every store into an opaque mapping (membership memo)
         self.user_exc_sites = 0
         self.old_state = ({}, {})
         self.def_axioms = []
